@@ -157,7 +157,13 @@ func runScenario(sc scenario) {
 			t2.Flows = append(t2.Flows, &rig.Flow{Run: f.Run, Dir: f.Dir, Media: f.Media, PT: f.PT})
 		}
 		fwd := t2
-		ingest = rig.NewReader("server-ingest", sc.PubProto == "tcp", 5)
+		ingest = rig.NewReader("server-ingest", sc.PubProto != "udp", 5)
+		if sc.PubProto == "http" || sc.PubProto == "ws" {
+			// a publisher behind a tunnel: a short idle timeout makes the server announce a session
+			// timeout of 1 s, so the client's keep-alives (written by its main routine) keep crossing
+			// the frames written by its writer routine on the same tunnel
+			opts.IdleTimeout = 6 * time.Second
+		}
 		// handler overrides are installed before the server starts
 		opts.PreStart = func(ts *rig.TestServer) {
 			ts.Core.Pause = func(_ *gortsplib.ServerHandlerOnPauseCtx) (*base.Response, error) {
@@ -216,6 +222,12 @@ func runScenario(sc scenario) {
 
 	if sc.Topology == "B" {
 		po := rig.ClientOpts{Name: "publisher", Proto: sc.PubProto, Path: "/pub", ReadTimeout: ioTimeout, WriteTimeout: ioTimeout}
+		switch sc.PubProto {
+		case "http":
+			po.Proto, po.Tunnel = "tcp", gortsplib.TunnelHTTP
+		case "ws":
+			po.Proto, po.Tunnel = "tcp", gortsplib.TunnelWebSocket
+		}
 		pub, err = rig.StartPublisher(ts, desc, po)
 		if err != nil {
 			ts.Close()
@@ -290,6 +302,7 @@ func runScenario(sc scenario) {
 	if sc.SmallQ {
 		gap = 20 * time.Microsecond
 	}
+
 	startWriters := func() {
 		for i, f := range src.Flows {
 			wwg.Add(1)
@@ -599,6 +612,11 @@ func scenarios() []scenario {
 	add("udp", true, "B", "udp", false)
 	add("mcast", false, "B", "tcp", false)
 	add("http", false, "A", "", true)
+	// publishers behind the HTTP / WebSocket tunnel, long enough for a few keep-alives
+	add("tcp", false, "B", "http", false)
+	out[len(out)-1].Packets = max(pk, 9000)
+	add("tcp", false, "B", "ws", false)
+	out[len(out)-1].Packets = max(pk, 9000)
 	if !run.Quick() {
 		for _, tr := range []string{"tcp", "udp", "http", "ws", "mcast"} {
 			for _, tls := range []bool{false, true} {
